@@ -53,7 +53,7 @@ func excluded(rule string) verdict { return verdict{k: vExcluded, why: rule} }
 // Open-case rules (decided from the documentation before looking at behaviour).
 const (
 	oDegenerate = "R0 degenerate instantiation (n=0 columns / 0 residual columns / 0 results / 0 slices) of an n-ary schematic"
-	oAssignable = "R1 column type assignable to, but not identical with, the parameter type ('must match' is not defined further)"
+	oAssignable = "R1 slice column type assignable to, but not identical with, the parameter type of a combinator's function ('must match' is not defined further). Not applied to Invocation/Apply: 'arguments do not match in type' is read as: the argument's type is the parameter type, or implements it when the parameter is of interface type"
 	oVariadic   = "R2 variadic function (also as the target of Invocation/Apply): constructor docs are silent; excluded when either the literal ([]T last parameter) or a Go-call reading (0..4 variadic arguments) would fit, rejected when no reading fits"
 	oCtxPos     = "R3 context.Context parameter that is not the single leading parameter (doc.go does not fix the position)"
 	oNilFunc    = "R4 nil value of a function type that fits the schema (value-level, not a type schema)"
@@ -659,12 +659,10 @@ func predInvocation(fi *fnInfo, args []interface{}) verdict {
 		if p.Kind() == reflect.Interface && t.Implements(p) {
 			continue // the only way to pass a value for an interface-typed parameter
 		}
-		if t.AssignableTo(p) {
-			if open == "" {
-				open = oAssignable
-			}
-			continue
-		}
+		// "do not match in type": for a parameter that is not of interface type the
+		// argument's type must BE the parameter type (FuncValue.In: "the i'th
+		// argument type"). A different type that merely happens to be assignable
+		// ([]int for type IDs []int, chan int for <-chan int) is a type mismatch.
 		return reject("argument %d: %s for %s", i, t, p)
 	}
 	if open != "" {
